@@ -65,6 +65,35 @@ def origDstCmsgV6 (le : Bool) (afInet6 port : Nat) (flow : Bytes) (gs : List Nat
 /-- An ancillary item `recv_udp` must skip. -/
 def Cmsg.Foreign (c : Cmsg) : Prop := ¬ (c.level = 0 ∧ c.type = 20) ∧ ¬ (c.level = 41 ∧ c.type = 74)
 
+/-- One diverted datagram as the kernel delivers it: source key, dialled destination, payload,
+and the id `next_channel()` would hand out at that moment. -/
+structure Dgram where
+  src : Nat
+  ip : Text
+  port : Nat
+  data : Bytes
+  fresh : Nat
+deriving Repr
+
+/-- A sequence of datagrams through `onaccept_udp`, the association table threaded along. -/
+def runUdp (fam : Nat) : UdpTable → List Dgram → List UdpEv
+  | _, [] => []
+  | t, d :: ds =>
+    (onacceptUdp t fam d.src d.ip (Int.ofNat d.port) d.data (some d.fresh)).2 ++
+      runUdp fam (onacceptUdp t fam d.src d.ip (Int.ofNat d.port) d.data (some d.fresh)).1 ds
+
+/-- Payloads of the CMD_UDP_DATA frames, in order. -/
+def dataPayloads : List UdpEv → List Bytes
+  | [] => []
+  | .data _ p :: r => p :: dataPayloads r
+  | _ :: r => dataPayloads r
+
+/-- The destination is the proxy's own listening socket: its port, a local address, and the
+listener is bound to the wildcard address or to that very address. -/
+def IsSelf (bindIp : Text) (wildcard : Bool) (listenPort : Int) (dstIp : Text) (dstPort : Int)
+    (isLocalAddr : Text → Bool) : Prop :=
+  dstPort = listenPort ∧ isLocalAddr dstIp = true ∧ (wildcard = true ∨ bindIp = dstIp)
+
 /-- The text denotes the IPv4 address `x` for the server's `connect`/`sendto`. -/
 def DenotesV4 (t : Text) (x : V4) : Prop := parseV4 t = some (x.a, x.b, x.c, x.d)
 
